@@ -482,7 +482,7 @@ fn real_server_hosts(r: &mut Report, exe: &str, work: &str, seed: u64, variant: 
     let port = hvcommon::net::free_port("127.0.0.1");
     // host a: the directory route is its first route; host b: second (after a file route); host c: third; default: first
     let pre: [&str; 4] = ["", "    route /only-b {\n      file \"{D}/only.html\"\n    }\n", "    route /only-c1 {\n      file \"{D}/only.html\"\n    }\n    route /only-c2 {\n      redirect \"https://example.com/\"\n    }\n", ""];
-    let mut conf = format!("server {{\n  address \"127.0.0.1\"\n  port {}\n  threads 4\n  cache {{\n    size 1M\n    time 60\n  }}\n  log {{\n    level \"error\"\n    console false\n  }}\n", port);
+    let mut conf = format!("server {{\n  address \"127.0.0.1\"\n  port {}\n  threads 4\n  cache {{\n    size 1M\n    time 60\n  }}\n  log {{\n    level \"{}\"\n    console false\n  }}\n", port, ["error", "info", "warn", "debug"][(variant % 4) as usize]);
     let order: Vec<usize> = if variant % 2 == 0 { vec![0, 1, 2] } else { vec![2, 0, 1] };
     for i in order {
         conf.push_str(&format!("  host \"{}\" {{\n{}    route /docs/* {{\n      directory \"{}/h{}d\"\n    }}\n    route /* {{\n      directory \"{}/h{}\"\n    }}\n  }}\n", hosts[i], pre[i].replace("{D}", &dir), dir, i, dir, i));
